@@ -46,7 +46,7 @@ PAT_ATOMS = ["a", "b", "c", "ab", "foo", "o", "x", ".", "[ab]", "[^a]", "[a-c]",
              "é", "ل", "日", " ", "[]a]", "[a-]", "()", "(a|b)", "(ab)*", "a*", "x*", ".*", "_", "1", "\\/", "%", "#"]
 HOSTILE = ["(", ")", "[", "]", "[a", "[[:alpha:]", "[[:", "a{", "a{1", "a{1,", "a{3,1}", "a{200}", "a{1,200}", "a{,}", "{", "}", "*", "+", "?",
            "**", "a**", "a*+", "a|", "|a", "||", "()", "(()", "())", "\\", "a\\", "[\\]", "[]", "[^]", "[]]", "[^]]", "[a-", "[z-a]", "\\<\\>", "\\>",
-           "\\<", "^*", "$*", "^^", "$$", "a{0}", "a{0,0}", "(a){0}", "((((((((((a))))))))))", "(a)" * 40, "(a)" * 70, "a?" * 60, "[[:foo:]]", "[[=a=]]", "[[.a.]]",
+           "\\<", "^*", "$*", "^^", "$$", "a{0}", "a{0,0}", "(a){0}", "((((((((((a))))))))))", "(a)" * 40, "(a)" * 70, "a?" * 30, "[[:foo:]]", "[[=a=]]", "[[.a.]]",
            "\\9", "\\1", "(a)\\1", "[[:alpha:][:digit:]]", "(^a)", "(a$)", "(|a)", "(a|)", "a{1}{2}", ".{100}", "x{128}", "x{129}", "é*", "[é-日]", "[日-é]"]
 
 
